@@ -160,6 +160,28 @@ func (s *script) peerData(kind int) bool {
 	return alive
 }
 
+// mtuShrink: a router on the path reports a smaller MTU for one of the connection's packets.  The
+// sender lowers its maximum payload, rewinds to the first queued segment that no longer fits and
+// resends from there (snd.go updateMaxPayloadSize).  There is no model event for this: the step is
+// recorded as an application write of zero bytes (which changes nothing in any monitor) and the
+// traces of this mode are judged by the monitors only.
+func (s *script) mtuShrink() bool {
+	st := s.c.Snap()
+	cur := st.MaxPayload + 40
+	lo := 68
+	if cur <= lo+1 {
+		return s.read()
+	}
+	m := lo + s.r.Intn(cur-lo)
+	if s.r.Intn(4) == 0 {
+		m = cur + s.r.Intn(100) // not smaller: must change nothing
+	}
+	if !s.c.InjectFragNeeded(uint16(m), st.SndUna) {
+		return s.read()
+	}
+	return s.snapObs("EWrite []", "RCount 0")
+}
+
 // oooBurst queues k consecutive segments AHEAD of the next expected byte (in random order, so the
 // pending heap really reorders), then fills the gap: the drain of the out-of-order queue has to
 // deliver all of them at once.  With the peer's sequence numbers placed so that the burst straddles
@@ -352,6 +374,10 @@ func (s *script) count(k string) { s.evKinds[k]++ }
 
 // one event according to the mix; returns false when the connection is no longer connected
 func (s *script) event() bool {
+	if mtuEvents && !s.c.Cfg.V6 && s.r.Intn(12) == 0 {
+		s.count("mtu-shrink")
+		return s.mtuShrink()
+	}
 	x := s.r.Intn(100)
 	switch s.mix {
 	case "c05":
@@ -505,6 +531,7 @@ var issChoices = []uint32{0, 1, 0x7fffff00, 0x7ffffff0, 0x7fffffff, 0x80000000, 
 
 var wrapOnly bool
 var cubicCC bool
+var mtuEvents bool
 
 // neutral: the same script (same random choices, same options, buffers and events) with the initial
 // sequence numbers moved far away from 2^31 and 2^32 - the twin a wrap-adjacent placement is
@@ -685,6 +712,7 @@ func main() {
 	mix := flag.String("mix", "c01", "event mix: c01 c02 c04 c05, or a comma-separated list used round robin")
 	nev := flag.Int("events", 30, "events per script")
 	flag.BoolVar(&wrapOnly, "wrap", false, "only wrap-adjacent placements of ISS/IRS and window edges")
+	flag.BoolVar(&mtuEvents, "mtu", false, "add path-MTU reductions (ICMP fragmentation needed) to every mix (no model event exists: monitors only)")
 	flag.BoolVar(&cubicCC, "cubic", false, "run every connection with the CUBIC congestion controller (not modelled: monitors only)")
 	twin := flag.Bool("twin", false, "run every script a second time with neutral initial sequence numbers and print the pair")
 	flag.Parse()
